@@ -344,11 +344,24 @@ func (r *replica) step(crashAt int) bool {
 		r.processSnapshot(ud)
 		r.applyRaftUpdates(ud)
 	}
-	for _, m := range ud.Messages {
-		if m.Type == pb.Replicate || m.Type == pb.Ping {
-			m.ShardID = r.cfg.ShardID
-			r.sim.send(r, m)
+	// node.sendReplicateMessages: Replicate messages go out before the update
+	// is persisted unless the leadership just changed; their commit index is
+	// capped at what has been persisted locally
+	sendReplicate := func() {
+		_, persisted := r.lr.GetRange()
+		for _, m := range ud.Messages {
+			if m.Type == pb.Replicate || m.Type == pb.Ping {
+				m.ShardID = r.cfg.ShardID
+				if m.Type == pb.Replicate && m.Commit > persisted {
+					m.Commit = persisted
+				}
+				r.sim.send(r, m)
+			}
 		}
+	}
+	replicateAfterPersist := ud.LeaderUpdate.Term != 0
+	if !replicateAfterPersist {
+		sendReplicate()
 	}
 	r.processReadyToRead(ud)
 	for _, e := range ud.DroppedEntries {
@@ -373,6 +386,9 @@ func (r *replica) step(crashAt int) bool {
 	}
 	// node.processRaftUpdate
 	must(r.lr.Append(ud.EntriesToSave))
+	if replicateAfterPersist {
+		sendReplicate()
+	}
 	for _, m := range ud.Messages {
 		if !(m.Type == pb.Replicate || m.Type == pb.Ping) {
 			m.ShardID = r.cfg.ShardID
